@@ -22,7 +22,8 @@ RULE = ("world = seeded document kept as segments, 60% with duplicated field nam
         "un-indexed set/delete, file.insert/append of paragraphs built with "
         "new_empty_paragraph()/from_dict, reads, gc and handle-drop steps, incl. operations "
         "that must fail and change nothing; an evaluation is one run; distinct = distinct "
-        "(op, paragraph, handle-kind) sequence hash; non-trivial = at least two mutations")
+        "(op, paragraph, handle-kind) sequence hash; non-trivial = at least two mutations"
+        '; later additions: steps without any rendering, library-provided key objects as keys, one call repeated up to 90 times, two paragraphs that compare equal, unterminated comment / blank tails, three or more occurrences of a name, names that are no field names')
 REAL = ["debian._deb822_repro.parsing (both paragraph implementations, Deb822FileElement."
         "insert/append), tokens.py, debian._util (LinkedList, OrderedSet)"]
 STUB = []
